@@ -190,6 +190,10 @@ func (state inSession) handleResendRequest(session *session, msg *Message) (next
 	}
 
 	beginSeqNo := beginSeqNoField
+	if beginSeqNo < 1 {
+		// Sequence numbers start at 1.
+		return state.processReject(session, msg, ValueIsIncorrect(tagBeginSeqNo))
+	}
 
 	var endSeqNoField FIXInt
 	if err = msg.Body.GetField(tagEndSeqNo, &endSeqNoField); err != nil {
